@@ -386,7 +386,7 @@ func main() {
 	}
 	nMut, nRand := 3, 2
 	if f.Tier != "quick" {
-		nMut, nRand = 16, 6
+		nMut, nRand = 10, 4
 	}
 	tagsBombs := 1 // thorough: one TagsUpdate registration gets the full 2^31-1 counts (each costs a killed child)
 	var jobs []job
